@@ -12,7 +12,7 @@ PBT = "property-based testing (pgregory.net/rapid): "
 KERNEL = "Trusted: harness kernel (exact integer predicates with 128 bit products, grid model with the extent from tms20.MatrixBoundingBox, routing reference cross-validated against exact-rational witness enumeration), rapid. "
 
 c("C01", True, PBT + "valid-polygon generators by construction + exact proper-crossing oracle over all output edge pairs; shrunk failures become replay files",
-  "Generated search: 20 000 (quick) to 4 000 000 (thorough) valid polygons built to hit pixel ties and collapses (edge-split growth, stars, combs, zig-zags, polyomino outlines, holes) on synthetic dyadic grids, NetherlandsRDNewQuad and WebMercatorQuad, 1-4 ids, all flag combinations; every pair of output edges of a tile matrix is tested for a proper crossing with exact orientation predicates. Plus an exhaustive slice: all 85 320 triangles on the quarter pixel lattice of a 2x2 pixel window at two grid positions (quick: every 16th). Falsification only beyond that slice: silence means no crossing among the explored cases and sizes (<= 40 vertices per ring, <= 3 holes, <= 4 ids).",
+  "Generated search: 26 000 (quick) to 4 900 000 (thorough) valid polygons built to hit pixel ties and collapses (edge-split growth, stars, combs, zig-zags, polyomino outlines, holes, nested and pinched shapes, templates turned by 45 degrees; sub-check C01Far: the deepest tile matrices of five built-in sets incl. the strip behind the last addressable pixel) on synthetic dyadic grids, NetherlandsRDNewQuad and WebMercatorQuad, 1-4 ids, all flag combinations; every pair of output edges of a tile matrix is tested for a proper crossing with exact orientation predicates. Plus an exhaustive slice: all 85 320 triangles on the quarter pixel lattice of a 2x2 pixel window at two grid positions (quick: every 16th). Falsification only beyond that slice: silence means no crossing among the explored cases and sizes (<= 40 vertices per ring, <= 3 holes, <= 4 ids).",
   KERNEL + "Open known finding F5 (invented edge when the routed boundary passes a centre >= 3 times) is excluded by signature and reported as KNOWN-FINDING.",
   "DESIGN.md §5 C01")
 c("C02", True, PBT + "differential against an independent routing reference model (separating-axis test with symbolic shrink) + exhaustive enumeration of a quarter-pixel lattice slice",
@@ -24,11 +24,11 @@ c("C03", True, PBT + "generated polygons on every accepted built-in set and id; 
   "Trusted: document numbers, pointindex.DeviationStats as the reported deviation (per the property statement), float64 arithmetic with the stated tolerance (dev + 1e-9 + 4 ulp).",
   "DESIGN.md §5 C03")
 c("C04", True, PBT + "valid-polygon generators + three exact validity predicates (vertex provenance, half-pixel Chebyshev corridor via closed-box separating-axis test, coverage at lattice sample locations)",
-  "10 000 (quick) / 1.6 M (thorough) valid polygons incl. holes and collapse-prone templates, plus 6 000 / 960 000 nested shapes at the deepest tile matrices of the built-in sets (C04Far); every output vertex must be the centre of a pixel holding an input vertex, sampled points of every output edge must stay within half a pixel of the input boundary, and every sampled location farther than a pixel from the boundary must be covered iff the input covers it. Clause 2 and 3 are sampled (one-directional: a reported excess is real). Plus the exhaustive triangle slice of C01.",
+  "10 000 (quick) / 1.6 M (thorough) valid polygons incl. holes and collapse-prone templates, plus 6 000 / 960 000 nested, pinched and annulus shapes at the deepest tile matrices of five built-in sets incl. the strip behind the last addressable pixel (C04Far); every output vertex must be the centre of a pixel holding an input vertex, sampled points of every output edge must stay within half a pixel of the input boundary, and every sampled location farther than a pixel from the boundary must be covered iff the input covers it. Clause 2 and 3 are sampled (one-directional: a reported excess is real). Plus the exhaustive triangle slice of C01.",
   KERNEL + "Open known findings F5 (invented edge, maxVisits >= 3) and F12 (hole attached to a cancelled zero-area island) are excluded by signature and reported as KNOWN-FINDING.",
   "DESIGN.md §5 C04")
 c("C18", True, PBT + "collapse-biased valid-polygon generators + reference model (routed boundary) with exact explained-edge, hole-containment and signed-area predicates",
-  "15 000 (quick) / 2.4 M (thorough) valid polygons biased to collapse; for every requested tile matrix whose routed boundary passes no centre more than twice: every output edge is a straight run of routed edges, holes lie in or on their shell, and the signed area equals the routed boundary's, exactly; shapes include nested C-shaped holes and (rarely) a 'sieve' with hundreds to 2400 holes in a shell that splits. Found F14. Plus the exhaustive triangle slice of C01.",
+  "21 000 (quick) / 3.0 M (thorough) valid polygons biased to collapse (incl. sub-check C18Far at the deepest tile matrices of five built-in sets); for every requested tile matrix whose routed boundary passes no centre more than twice: every output edge is a straight run of routed edges, holes lie in or on their shell, and the signed area equals the routed boundary's, exactly; shapes include nested C-shaped holes and (rarely) a 'sieve' with hundreds to 2400 holes in a shell that splits. Found F14. Plus the exhaustive triangle slice of C01.",
   KERNEL, "DESIGN.md §5 C18")
 c("C05", True, PBT + "arbitrary (valid and invalid) polygon generators, both keep modes per case, structural invariant oracle",
   "30 000 (quick) / 4.8 M (thorough) arbitrary polygons (repetitive scribbles, words over pixel centres, tiny rings, empty rings, polygons without any ring) on grids incl. WebMercator/UPS/ETRS89 (magnitudes above 2^53, y,x axis order); every returned ring is checked for orientation (exact area sign), closure, repetition, size, and the keep/no-keep prefix relation; rare cases with 65-140 rings; sub-check C05Pipe applies the collapse policy to what processing.ProcessFeatures hands to its targets (real snapping function); thorough adds the native fuzz target FuzzC05.",
@@ -55,7 +55,7 @@ c("C12", True, PBT + "generated GeoPackage schemas, feature counts around page-s
   "3 200 (quick) / 160 000 (thorough) generated target writes through SourceGeopackage.GetTableInfo -> TargetGeopackage.CreateTables/WriteFeatures; two routes (features fed by the harness; features copied from a source by the tool's reader); rows in order with attributes (INTEGER, REAL, TEXT, DATETIME with sub-millisecond digits) and decoded geometry, spatial index ids, recorded extent, geometry column, table_info and SRS row compared with the source; page sizes 1-40 (120), several hundred with counts around multiples of 999/#columns, huge ones up to MaxInt64, and tables whose full page carries more than 32 766 values (33-40 columns x ~1000 rows, or page sizes 5462/8192); DATETIME values with and without zone offsets; geometry type names spelled in upper, lower and title case in the source.",
   "Runs against the verif-tagged stub driver (go-sqlite3 + ST_* in Go), not libspatialite, which is not installed.", "DESIGN.md §5 C12")
 c("C13", True, PBT + "generated source GeoPackages, id lists, flags (short/long/env spellings), target paths and pre-existing files through the REAL binary; differential against the library + independent path rule",
-  "400 (quick) / 40 000 (thorough) runs of the texel binary built from the working tree; the expected files and rows are computed by calling snap.SnapPolygon in process; rows, attributes, geometry, spatial index, extent, metadata compared; crash expected when a polygon lies outside the grid with -iog off. Found F11.",
+  "1 200 (quick) / 40 000 (thorough) runs of the texel binary built from the working tree on generated sources (polygon, other, mixed GEOMETRY/GEOMETRYCOLLECTION tables, extension type names, registration in another case, sources left open in WAL mode by a second connection); the expected files and rows are computed by calling snap.SnapPolygon in process; rows, attributes, geometry, spatial index, extent, metadata compared; crash expected when a polygon lies outside the grid with -iog off. Found F11.",
   "Differential against the library (itself the subject of C01-C09); stub driver as C12.", "DESIGN.md §5 C13")
 c("C14", True, "exhaustive enumeration of the 14 built-in sets (through the real binary and the library) and of all single-field perturbations; rapid for perturbation pairs; independent true-quadtree predicate as a two-sided oracle",
   "All 14 sets through the binary (eight id lists each: single ids and lists in both orders must give one verdict) and the library (never a panic, agreement, accepted <=> true quadtree, pixel pitch measured from actual snapping = cellSize/16 for every id); all ~4 900 single-field perturbations of the 7 accepted sets at every level with a two-sided oracle; 5 000 (quick) / 320 000 (thorough) random perturbation pairs/triples.",
